@@ -10,6 +10,14 @@
 
 using namespace sim;
 
+extern "C"
+{
+    void* __real_dlopen(const char*, int);
+    void* __real_dlsym(void*, const char*);
+    int __real_dlclose(void*);
+    char* __real_dlerror(void);
+}
+
 namespace
 {
 Counter f_open_fail("fault.dl.open_fail");
@@ -28,6 +36,20 @@ Counter p_env_empty("probe.env_set_to_empty_string_read");
 Counter p_env_unset_raise("probe.env_unset_read_without_default");
 Counter p_calls("probe.symbol_calls");
 Counter p_fault_open("probe.alloc_fault_inside_open_load_copy");
+Counter c_real_runs("loader.real.runs");
+Counter c_stub_runs("loader.stub.runs");
+
+// directory of this executable: the real shared objects are built next to it
+std::string exe_dir()
+{
+    char buf[4096];
+    ssize_t n = readlink("/proc/self/exe", buf, sizeof buf - 1);
+    if (n <= 0)
+        return ".";
+    buf[n] = 0;
+    std::string s(buf);
+    return s.substr(0, s.rfind('/'));
+}
 
 // ---------------------------------------------------------------- the simulated loader
 constexpr int NLIB = 3; // 0 = libA, 1 = libB, 2 = the program itself
@@ -47,6 +69,8 @@ struct Loader
     bool call_into_closed = false;
     int calls = 0;
     bool active = false;
+    bool real_mode = false;           // forward to the real loader, only count
+    void* real_handle[NLIB] = { nullptr, nullptr, nullptr };
     int failed_lookups = 0;
     void reset()
     {
@@ -55,7 +79,7 @@ struct Loader
     int lib_of(void* h)
     {
         for (int i = 0; i < NLIB; i++)
-            if (h == &lib[i].handle_tag)
+            if (h == &lib[i].handle_tag || (real_mode && h && h == real_handle[i]))
                 return i;
         return -1;
     }
@@ -91,6 +115,11 @@ int fn_b(int x)
 int fn_self(int x)
 {
     return fn_in_lib(2, x);
+}
+
+extern "C" __attribute__((visibility("default"))) int sim_present(int x)
+{
+    return x + 1 + 2; // what dlsym finds in the main program (library id 2) in the real configuration
 }
 
 const char* const LIBNAME[4] = { "libsimA.so", "libsimB.so", nullptr, "libmissing.so" };
@@ -321,7 +350,7 @@ struct Exec
                     fail(cat == C_OK ? "C19/no-raise" : "C19/wrong-exception", op, opi, arg, "opening a missing library did not raise nitro::dl::exception");
                     break;
                 }
-                if (dlerr.find("sim: cannot open libmissing.so #") != 0)
+                if (g_ld.real_mode ? dlerr.find("libmissing.so") == std::string::npos : dlerr.find("sim: cannot open libmissing.so #") != 0)
                     fail("C19/diagnostic-lost", op, opi, arg, "dl::exception::dlerror() is '" + dlerr + "', not the loader's diagnostic");
                 break;
             }
@@ -379,7 +408,7 @@ struct Exec
                     break;
                 }
                 std::string want = "sim: undefined symbol sim_absent #" + std::to_string(diag_before + 1);
-                if (dlerr != want)
+                if (g_ld.real_mode ? dlerr.find("sim_absent") == std::string::npos : dlerr != want)
                     fail("C19/diagnostic-lost", op, opi, arg, "dl::exception::dlerror() is '" + dlerr + "', expected '" + want + "'");
                 break;
             }
@@ -570,10 +599,21 @@ struct Exec
             break;
         }
         case K_STALE:
-            g_ld.set_error("sim: stale error left by another component #" + std::to_string(++g_ld.diag_counter));
+            if (g_ld.real_mode)
+            {
+                void* h = __real_dlopen("/nonexistent/libstale-nitro-dlsim.so", RTLD_NOW); // leaves an error pending
+                (void)h;
+            }
+            else
+                g_ld.set_error("sim: stale error left by another component #" + std::to_string(++g_ld.diag_counter));
             f_stale++;
             break;
         case K_CLOSE_ERR:
+            if (g_ld.real_mode)
+            {
+                executed = false; // the real loader cannot be told to fail a close
+                break;
+            }
             g_ld.next_close_fails = true;
             f_close_error++;
             break;
@@ -650,6 +690,8 @@ struct Exec
     {
         fctl() = FaultCtl();
         g_ld.reset();
+        g_ld.real_mode = plan.knob("real_loader", 0) != 0;
+        (g_ld.real_mode ? c_real_runs : c_stub_runs)++;
         g_ld.active = true;
         atrack().enabled = true;
         atrack().reset();
@@ -736,6 +778,7 @@ public:
         Plan p;
         int mode = static_cast<int>(rng.below(5)); // 0: env only, else mostly dl
         p.knobs.emplace_back("mode", mode);
+        p.knobs.emplace_back("real_loader", rng.chance(1, 8));
         int nops = rng.range(3, 20);
         static const int dl_kinds[] = { K_OPEN, K_OPEN, K_OPEN, K_LOAD, K_LOAD, K_LOAD, K_LOAD, K_COPY_DL, K_COPY_SYM, K_COPY_SYM, K_CALL, K_CALL,
                                         K_CALL, K_HOLD, K_DESTROY_DL, K_DESTROY_DL, K_DESTROY_DL, K_DESTROY_SYM, K_DESTROY_SYM, K_RELEASE, K_STALE, K_CLOSE_ERR };
@@ -859,6 +902,20 @@ extern "C"
         if (!g_ld.active)
             return __real_dlopen(file, flags);
         NoFault nf;
+        if (g_ld.real_mode)
+        {
+            int rl = !file ? 2 : !strcmp(file, LIBNAME[0]) ? 0 : !strcmp(file, LIBNAME[1]) ? 1 : -1;
+            std::string path;
+            if (rl == 0 || rl == 1)
+                path = exe_dir() + (rl == 0 ? "/libsimrealA.so" : "/libsimrealB.so");
+            void* h = __real_dlopen(rl == 2 ? nullptr : rl >= 0 ? path.c_str() : file, flags);
+            if (h && rl >= 0)
+            {
+                g_ld.lib[rl].opens++;
+                g_ld.real_handle[rl] = h;
+            }
+            return h;
+        }
         int l = -1;
         if (!file)
             l = 2;
@@ -876,7 +933,7 @@ extern "C"
     }
     void* __wrap_dlsym(void* handle, const char* name)
     {
-        if (!g_ld.active)
+        if (!g_ld.active || g_ld.real_mode)
             return __real_dlsym(handle, name);
         NoFault nf;
         int l = g_ld.lib_of(handle);
@@ -898,6 +955,17 @@ extern "C"
         if (!g_ld.active)
             return __real_dlclose(handle);
         NoFault nf;
+        if (g_ld.real_mode)
+        {
+            int rl = g_ld.lib_of(handle);
+            if (rl < 0)
+            {
+                g_ld.close_of_unknown++;
+                return -1;
+            }
+            g_ld.lib[rl].closes++;
+            return __real_dlclose(handle);
+        }
         int l = g_ld.lib_of(handle);
         if (l < 0)
         {
@@ -915,7 +983,7 @@ extern "C"
     }
     char* __wrap_dlerror(void)
     {
-        if (!g_ld.active)
+        if (!g_ld.active || g_ld.real_mode)
             return __real_dlerror();
         NoFault nf;
         if (!g_ld.has_pending)
